@@ -16,12 +16,19 @@ the same outcome at every fuel.  Each rewrite of the real passes is then an inst
 * `copy_prop_sound` (FULL): after `x = y`, replacing reads of `x` by `y` (all or some of them) in a
   block that rebinds neither — the repaired single-definition condition of `copy_propagate.py`;
   `copy_prop_rejects_redefinition` shows the checker refusing the F13 shape;
-* `const_fold_assign_partial` (PARTIAL): replacing a right-hand side / returned expression by a literal
-  is sound when the expression evaluates to that literal in the state at hand; what is missing is a
-  model of `PartialEval` deciding that fact statically (which context is active, which names are
-  constant) — that part of C07 rests on the differential runs of harness/c07.py.
+* `const_fold_closed_sound` / `const_fold_static_sound` (FULL for scalar expressions): the STATIC decision
+  of constant folding.  An expression built from literals (and names bound to known flat values) by
+  rounded operators, predicates, comparisons, Boolean connectives, conditionals and `round_at`
+  (`scalarE`) is evaluated once, on the empty heap, under the context `C` active at that point; in every
+  state agreeing on those names it evaluates under `C` to that value and leaves the heap alone, so
+  replacing it by the literal (`litOf`) preserves the outcome of the enclosing assignment / `return` /
+  `assert` / expression statement / `if` / `for` (`const_fold_stmt_sound`); under `with D:` the context to
+  use is `D` (`const_fold_under_with`).  `const_fold_wrong_context_unsound`: folding with the value
+  computed under a DIFFERENT context than the active one changes the result (concrete program).
+  PARTIAL (`const_fold_subexpr_partial`): a foldable sub-expression nested inside a non-constant
+  expression (`x * (2 + 3)`), `while` conditions, list-valued constants — by differential runs only.
 -/
-import Fpy.Proof.LangEntry
+import Fpy.Proof.LangFold
 namespace Fpy.Props.C07
 open Fpy Fpy.Lang Fpy.Xform
 
@@ -122,17 +129,54 @@ theorem copy_prop_subst_sound {Φ : Funs} {x y : String} {ss : List Stmt} (hx : 
       Returns Φ σ μ C (.assign (.var x) (.var y) :: ss) w μ' :=
   Fpy.Xform.copy_prop_subst_sound hx hy σ μ C w μ'
 
-/-- constant folding of a right-hand side, given the value (PARTIAL: the analysis that supplies `h`
-statically is not modelled) -/
-theorem const_fold_assign_partial {Φ : Funs} {σ : Env} {μ : Heap} {C : Ctx} {e : Expr} {v : NV} (p : Pat) (rest : List Stmt)
-    (h : evalEω Φ σ μ C e = .ok (.num v, μ)) :
-    evalBω Φ σ μ C (.assign p e :: rest) = evalBω Φ σ μ C (.assign p (.num v) :: rest) := by
-  rw [evalBω_cons', evalBω_cons', evalSω_assign, evalSω_assign, h, evalEω_num]
+/-- THE STATIC DECISION, closed expressions: the folder evaluates the closed scalar `e` once (fuel `N`,
+empty environment and heap) under the ACTIVE context `C`; then in every state `e` evaluates under `C`
+to that value, without touching the heap. -/
+theorem const_fold_closed_sound {Φ : Funs} {N : Nat} {C : Ctx} {e : Expr} {v : Val} {m : Heap}
+    (hc : closedE e = true) (hstatic : evalE Φ N [] [] C e = .ok (v, m)) (σ : Env) (μ : Heap) :
+    evalEω Φ σ μ C e = .ok (v, μ) ∧ flatV v = true := const_fold_closed hc hstatic σ μ
 
-theorem const_fold_ret_partial {Φ : Funs} {σ : Env} {μ : Heap} {C : Ctx} {e : Expr} {v : NV} (rest : List Stmt)
-    (h : evalEω Φ σ μ C e = .ok (.num v, μ)) :
-    evalBω Φ σ μ C (.ret e :: rest) = evalBω Φ σ μ C (.ret (.num v) :: rest) := by
-  rw [evalBω_cons', evalBω_cons', evalSω_ret, evalSω_ret, h, evalEω_num]
+/-- … with names bound to literals by a unique dominating definition: `Γ` lists them (flat values); the
+state must agree with `Γ` on the names `e` reads (nothing rebinds them between definition and use). -/
+theorem const_fold_static_sound {Φ : Funs} {N : Nat} {Γ σ : Env} {C : Ctx} {e : Expr} {v : Val} {m : Heap}
+    (hs : scalarE e = true) (hΓ : FlatOn Γ (readsE e)) (hσ : ∀ z ∈ readsE e, σ.get? z = Γ.get? z)
+    (hstatic : evalE Φ N Γ [] C e = .ok (v, m)) (μ : Heap) :
+    evalEω Φ σ μ C e = .ok (v, μ) ∧ flatV v = true := const_fold_static hs hΓ hσ hstatic μ
+
+/-- replacing the top-level expression of a statement by the literal of its static value -/
+theorem const_fold_stmt_sound {Φ : Funs} {N : Nat} {Γ σ : Env} {C : Ctx} {e lit : Expr} {v : Val} {m : Heap}
+    (hs : scalarE e = true) (hΓ : FlatOn Γ (readsE e)) (hσ : ∀ z ∈ readsE e, σ.get? z = Γ.get? z)
+    (hstatic : evalE Φ N Γ [] C e = .ok (v, m)) (hlit : litOf v = some lit) (μ : Heap) (p : Pat) (t f rest : List Stmt) :
+    evalBω Φ σ μ C (.assign p e :: rest) = evalBω Φ σ μ C (.assign p lit :: rest) ∧
+    evalBω Φ σ μ C (.ret e :: rest) = evalBω Φ σ μ C (.ret lit :: rest) ∧
+    evalBω Φ σ μ C (.assert e :: rest) = evalBω Φ σ μ C (.assert lit :: rest) ∧
+    evalBω Φ σ μ C (.effect e :: rest) = evalBω Φ σ μ C (.effect lit :: rest) ∧
+    evalBω Φ σ μ C (.ifte e t f :: rest) = evalBω Φ σ μ C (.ifte lit t f :: rest) ∧
+    evalBω Φ σ μ C (.if1 e t :: rest) = evalBω Φ σ μ C (.if1 lit t :: rest) ∧
+    evalBω Φ σ μ C (.for p e t :: rest) = evalBω Φ σ μ C (.for p lit t :: rest) := by
+  have h := stmt_expr_congr (const_fold_expr hs hΓ hσ hstatic hlit μ) p t f
+  exact ⟨block_head_congr h.1 rest, block_head_congr h.2.1 rest, block_head_congr h.2.2.1 rest,
+    block_head_congr h.2.2.2.1 rest, block_head_congr h.2.2.2.2.1 rest, block_head_congr h.2.2.2.2.2.1 rest,
+    block_head_congr h.2.2.2.2.2.2 rest⟩
+
+/-- inside `with D:` (a literal context: the statically known context stack) the value to fold is the one
+computed under `D`, whatever the context outside -/
+theorem const_fold_under_with {Φ : Funs} {N : Nat} {σ : Env} {C D : Ctx} {e lit : Expr} {v : Val} {m : Heap}
+    (hc : closedE e = true) (hstatic : evalE Φ N [] [] D e = .ok (v, m)) (hlit : litOf v = some lit) (μ : Heap)
+    (p : Pat) (body : List Stmt) :
+    evalSω Φ σ μ C (.with (.ctxLit D) none (.assign p e :: body)) =
+      evalSω Φ σ μ C (.with (.ctxLit D) none (.assign p lit :: body)) := by
+  rw [with_ctx_wrap, with_ctx_wrap]
+  have he : evalEω Φ σ μ D e = evalEω Φ σ μ D lit := by
+    rw [(const_fold_closed hc hstatic σ μ).1, evalEω_litOf hlit]
+  exact block_head_congr (stmt_expr_congr he p [] []).1 body
+
+/-- PARTIAL — MISSING: congruence for a folded sub-expression nested in a non-constant expression, `while`
+conditions (the environment changes between iterations), list-valued constants (identity). -/
+theorem const_fold_subexpr_partial {Φ : Funs} {σ : Env} {μ : Heap} {C : Ctx} {e e' : Expr}
+    (h : evalEω Φ σ μ C e = evalEω Φ σ μ C e') (rest : List Stmt) :
+    evalBω Φ σ μ C (.ret e :: rest) = evalBω Φ σ μ C (.ret e' :: rest) :=
+  block_head_congr (stmt_expr_congr h (.var "_") [] []).2.1 rest
 
 /-! ### non-vacuity -/
 
@@ -166,5 +210,25 @@ example : substB "x" "y" [.assign (.var "z") (add (.var "x") (.var "a")), .ret (
     = [.assign (.var "z") (add (.var "y") (.var "a")), .ret (.var "z")] := by
   simp [substB, renB, renS, renE, renEs, sub1, add]
 example : "t" ∉ readsB [.ret (add (.var "x") (.var "a"))] := by decide
+
+/-! ### folding under the wrong context is unsound -/
+
+def one3 : Expr := .op .div [.num (.fv (.fin ⟨false, 0, 1⟩)), .num (.fv (.fin ⟨false, 0, 3⟩))]
+def mp3 : Ctx := .mp 3 .rne (some 0) {}
+/-- `with MPFloatContext(3): return 1/3` called under binary64 -/
+def progW (e : Expr) : List Stmt := [.with (.ctxLit mp3) none [.ret e]]
+/-- `1/3` under binary64 — the value a folder that ignored the `with` would substitute -/
+def third64 : NV := .fv (.fin ⟨false, -54, 6004799503160661⟩)
+/-- `1/3` with 3 digits — the value under the ACTIVE context -/
+def third3 : NV := .fv (.fin ⟨false, -4, 5⟩)
+
+example : closedE one3 = true := by decide
+/-- the static evaluation under the active context `mp3`, and the sound fold … -/
+example : retNum (evalB ⟨[]⟩ 10 [] [] fp64 (progW one3)) = some third3 := by decide
+example : retNum (evalB ⟨[]⟩ 10 [] [] fp64 (progW (.num third3))) = some third3 := by decide
+/-- … whereas folding with the value computed under the enclosing context changes what the program returns -/
+theorem const_fold_wrong_context_unsound :
+    retNum (evalB ⟨[]⟩ 10 [] [] fp64 (progW one3)) ≠ retNum (evalB ⟨[]⟩ 10 [] [] fp64 (progW (.num third64))) := by
+  decide
 
 end Fpy.Props.C07
